@@ -50,3 +50,8 @@ def deliver(conn, data: bytes):
     """what SSHConnection.data_received does (minus the tunnel case)"""
     conn._inpbuf += data
     conn._recv_data()
+
+
+def pframe(conn, payload: bytes) -> bytes:
+    """frame a plaintext payload for conn's current receive parameters (block size, MAC size; identity cipher)"""
+    return frame(payload, conn._recv_blocksize) + bytes(conn._recv_macsize)
